@@ -230,6 +230,7 @@ func c12One(e *core.Env, decls []c12Decl, explore bool) (string, string, []int, 
 }
 
 func c12Run(e *core.Env) {
+	e.ReserveTail()
 	prices := []string{"2", "0.5", "3", "0.3333", "0"}
 	maxN := 4
 	if e.Thorough() {
@@ -280,6 +281,7 @@ func c12Run(e *core.Env) {
 	rec(0, maxN, small)
 	e.SetBound("declarations_reduced_alphabet", maxN)
 
+	e.BeginTail()
 	// prices whose reciprocal or chain product sits next to an 8-decimal truncation boundary
 	// (a reciprocal of 0.12345678999999999..., 1/3, 1/7, the largest and smallest amounts):
 	// every single declaration and every two-step chain over them
@@ -441,7 +443,7 @@ func init() {
 	core.Register(&core.Check{
 		ID: "C12", Level: "model_checking", Run: c12Run, Replay: c12Replay,
 		Added:       "prices next to an 8-decimal truncation boundary (single declarations, two-step chains, same pair both ways); command level: same-day sequences for one pair, holdings restricted to connected commodities; three-file layout under every loader schedule",
-		QuickBudget: 80 * time.Second, ThoroughBudget: 14 * time.Minute,
+		QuickBudget: 160 * time.Second, ThoroughBudget: 14 * time.Minute,
 		Rule: "every sequence of <= n price declarations over 4 commodities (12 directed pairs x prices {2,0.5,3,0.3333,0}; reduced price set one level deeper), " +
 			"each normalized for V under every map iteration order (explorer-owned, unbounded deviations); states/transitions = choice-tree nodes/edges of the map-order exploration; non-trivial = more than one map order exists",
 		Assumptions: []string{"when several indirect chains exist and no direct declaration, any chain's value is accepted but it must not depend on map order",
